@@ -234,6 +234,10 @@ def _run_structural(ctx):
     from .shared import rule_name_selection, rule_flag_default
     rule_flag_default(ctx, r4, "gwf.plugins.status:status", "--endpoints", "targets that are not endpoints would be hidden although --endpoints was not given")
     rule_flag_default(ctx, r2, "gwf.plugins.run:run", "--dry-run", "`gwf run` would only ever preview")
+    from .shared import rule_targets_argument, rule_calls_bind
+    rule_calls_bind(ctx, r4, ("gwf.plugins.status", "gwf.plugins.run", "gwf.scheduling", "gwf.filtering"))
+    rule_targets_argument(ctx, r4, "gwf.plugins.status:status", "`gwf status [NAMES]`")
+    rule_targets_argument(ctx, r2, "gwf.plugins.run:run", "`gwf run [NAMES]`")
     rule_name_selection(ctx, r4, "the rows of `gwf status PATTERN...` (the name filter may receive the one-shot result of a previous filter)")
     sf = idx.func("gwf.filtering:StatusFilter.predicate")
     r4.check(any(ast.unparse(n.value).replace(" ", "") == "self.status_provider(target)inself.status" for n in walk_no_nested(sf.node) if isinstance(n, ast.Return)),
